@@ -1,10 +1,10 @@
 CONSTANTS
   Keys = {1, 2}
-  MaxOps = 5
-  Layouts = {}
+  MaxOps = 6
+  Layouts <- GenLayouts
   Rich = FALSE
-  Shapes = {}
+  Shapes = {"given", "round"}
 INIT Init
-NEXT Next
+NEXT ShapedNext
 INVARIANT Out
 CHECK_DEADLOCK FALSE
